@@ -220,8 +220,17 @@ def interleavings(maxlen):
                 yield list(seq)
 
 
+# executions that hold a lot of state while they are suspended between two pulls: closure applications nested
+# several hundred deep (each level a live sub-execution), results yielded from inside the nesting
+DEEP_PROGRAMS = ["{ if (> 0) then (1 sub over apply) else () } swap over apply",
+                 "{ if (> 0) then (1 sub over apply, 7) else () } swap over apply"]
+DEEP_INPUTS = ["Idec:600", "Idec:450"]
+
+
 def program_inputs(tier):
     out = []
+    for p in DEEP_PROGRAMS:
+        out.append((p, [("core", i) for i in DEEP_INPUTS]))
     for p in CORE_PROGRAMS:
         if "match" in p or "=~" in p or p.startswith("(|A B|"):
             # valid then invalid, invalid then valid, invalid then another invalid (each history ends by executing
